@@ -28,17 +28,12 @@ def expectedOrdTeens : List Txt := [[116, 101, 110, 116, 104], [101, 108, 101, 1
     decillion, undecillion, duodecillion, tredecillion, quattuordecillion, quindecillion, sexdecillion, septendecillion,
     octodecillion, novemdecillion, vigintillion -/
 def expectedPeriods : List Txt := [[], [116, 104, 111, 117, 115, 97, 110, 100], [109, 105, 108, 108, 105, 111, 110], [98, 105, 108, 108, 105, 111, 110], [116, 114, 105, 108, 108, 105, 111, 110], [113, 117, 97, 100, 114, 105, 108, 108, 105, 111, 110], [113, 117, 105, 110, 116, 105, 108, 108, 105, 111, 110], [115, 101, 120, 116, 105, 108, 108, 105, 111, 110], [115, 101, 112, 116, 105, 108, 108, 105, 111, 110], [111, 99, 116, 105, 108, 108, 105, 111, 110], [110, 111, 110, 105, 108, 108, 105, 111, 110], [100, 101, 99, 105, 108, 108, 105, 111, 110], [117, 110, 100, 101, 99, 105, 108, 108, 105, 111, 110], [100, 117, 111, 100, 101, 99, 105, 108, 108, 105, 111, 110], [116, 114, 101, 100, 101, 99, 105, 108, 108, 105, 111, 110], [113, 117, 97, 116, 116, 117, 111, 114, 100, 101, 99, 105, 108, 108, 105, 111, 110], [113, 117, 105, 110, 100, 101, 99, 105, 108, 108, 105, 111, 110], [115, 101, 120, 100, 101, 99, 105, 108, 108, 105, 111, 110], [115, 101, 112, 116, 101, 110, 100, 101, 99, 105, 108, 108, 105, 111, 110], [111, 99, 116, 111, 100, 101, 99, 105, 108, 108, 105, 111, 110], [110, 111, 118, 101, 109, 100, 101, 99, 105, 108, 108, 105, 111, 110], [118, 105, 103, 105, 110, 116, 105, 108, 108, 105, 111, 110]]
-/-- the same with entry 6 as the unchanged tree spells it ("quantillion"): the defect repaired by
-    repo-patches/C15/0005. REMOVE this alternative (and `findings/C15-pending.json`) once the patch is applied. -/
-def expectedPeriodsKnownMisspelling : List Txt := [[], [116, 104, 111, 117, 115, 97, 110, 100], [109, 105, 108, 108, 105, 111, 110], [98, 105, 108, 108, 105, 111, 110], [116, 114, 105, 108, 108, 105, 111, 110], [113, 117, 97, 100, 114, 105, 108, 108, 105, 111, 110], [113, 117, 97, 110, 116, 105, 108, 108, 105, 111, 110], [115, 101, 120, 116, 105, 108, 108, 105, 111, 110], [115, 101, 112, 116, 105, 108, 108, 105, 111, 110], [111, 99, 116, 105, 108, 108, 105, 111, 110], [110, 111, 110, 105, 108, 108, 105, 111, 110], [100, 101, 99, 105, 108, 108, 105, 111, 110], [117, 110, 100, 101, 99, 105, 108, 108, 105, 111, 110], [100, 117, 111, 100, 101, 99, 105, 108, 108, 105, 111, 110], [116, 114, 101, 100, 101, 99, 105, 108, 108, 105, 111, 110], [113, 117, 97, 116, 116, 117, 111, 114, 100, 101, 99, 105, 108, 108, 105, 111, 110], [113, 117, 105, 110, 100, 101, 99, 105, 108, 108, 105, 111, 110], [115, 101, 120, 100, 101, 99, 105, 108, 108, 105, 111, 110], [115, 101, 112, 116, 101, 110, 100, 101, 99, 105, 108, 108, 105, 111, 110], [111, 99, 116, 111, 100, 101, 99, 105, 108, 108, 105, 111, 110], [110, 111, 118, 101, 109, 100, 101, 99, 105, 108, 108, 105, 111, 110], [118, 105, 103, 105, 110, 116, 105, 108, 108, 105, 111, 110]]
-
 theorem ones_spelling : cardinalOne = expectedOnes := by decide +kernel
 theorem teens_spelling : cardinalTeen = expectedTeens := by decide +kernel
 theorem tens_spelling : cardinalTen = expectedTens := by decide +kernel
 theorem ordinal_ones_spelling : ordinalOne = expectedOrdOnes := by decide +kernel
 theorem ordinal_teens_spelling : ordinalTeen = expectedOrdTeens := by decide +kernel
-theorem periods_spelling : cardinalTriples = expectedPeriods ∨ cardinalTriples = expectedPeriodsKnownMisspelling := by
-  decide +kernel
+theorem periods_spelling : cardinalTriples = expectedPeriods := by decide +kernel
 
 /-! ## Roman numerals: both tables render 1..3999 to numerals of the right value -/
 
